@@ -45,7 +45,7 @@ def generate(rng, tier, index):
         triples = gen.gen_schema_graph(rng, n_nodes=n_nodes, n_classes=rng.randint(1, 3), n_props=rng.randint(1, 4), bnodes=bn)
     else:
         triples = gen.gen_graph(rng, n_nodes=n_nodes, n_classes=rng.randint(1, 3), n_props=rng.randint(1, 5), bnodes=bn,
-                                density=rng.choice([0.4, 0.6, 0.9]),
+                                density=rng.choice([0.4, 0.6, 0.9]), same_local_classes=0.08,
                                 kinds=("node", "str", "int", "lang", "date", "iri", "iri2", "cdt", "cdt2"))
     tp = gen.CUSTOM_TYPE if rng.random() < 0.12 else gen.RDF_TYPE
     triples = gen.retype(gen.ensure_class(triples), tp)
@@ -61,7 +61,12 @@ def generate(rng, tier, index):
     if labels and rng.random() < 0.8:
         # legal label characters beyond [A-Za-z0-9_]: '-' and an inner '.' (genid / skolem style labels)
         style = rng.choice(["_:z%d", "_:z%d", "_:genid-%d", "_:n.%dx", "_:b_%d-a.b", "underscores"])
-        if style == "underscores":
+        if style == "_:b_%d-a.b" and rng.random() < 0.5:
+            style = "mixed_long"
+        if style == "mixed_long":
+            # long labels next to short ones of the form _:b<n>
+            new = [("_:averyveryveryverylonglabelforablanknode%d" % i) if i % 2 == 0 else ("_:b%d" % (i // 2)) for i in range(len(labels))]
+        elif style == "underscores":
             new = ["_:" + "_" * i + "n" for i in range(len(labels))]      # _:n, _:_n, _:__n ... are distinct labels
         else:
             new = [style % i for i in range(len(labels))]
